@@ -87,6 +87,12 @@ func c12Births(c *ctx) {
 		p, _ := try(func() {
 			l := s.GetLunar()
 			ec := l.GetEightChar()
+			if b[3] == 23 && i%2 == 0 {
+				// the chart's day-boundary convention is a different option from the start-offset school: it moves
+				// the day pillar of a late-rat-hour birth and nothing of the fortune
+				ec.SetSect(1)
+				f["csect"] = 1
+			}
 			f["pj"] = sol(l.GetPrevJie().GetSolar())
 			f["nj"] = sol(l.GetNextJie().GetSolar())
 			f["ygx"] = l.GetYearGanIndexExact()
